@@ -210,6 +210,17 @@ class _ImmutableDeclaration(Declaration):
             _ImmutableDeclaration.__instance = object.__new__(cls)
         return _ImmutableDeclaration.__instance
 
+    __initialized = False
+
+    def __init__(self):
+        # Calling the class again gives the singleton back (``weakref``
+        # below relies on that), and Python then runs ``__init__``
+        # once more: initialise only the first time, or everything the
+        # singleton implies would be wiped.
+        if not _ImmutableDeclaration.__initialized:
+            _ImmutableDeclaration.__initialized = True
+            super().__init__()
+
     def __reduce__(self):
         return "_empty"
 
